@@ -62,10 +62,16 @@ fn legal_codes(rng: &mut Rng, c: &Cfg, n: usize) -> Vec<[u16; 3]> {
 
 fn new_yuv(c: &Cfg, st: i64, w: usize, h: usize, rng: &mut Rng) -> Result<Img, String> {
     let px = legal_codes(rng, c, w * h);
+    // plane paddings are the caller's business and nothing observable may depend on them (in particular not the
+    // size-based resolution of Unspecified metadata): half of the frames are tight, the others padded by 1..32
+    const PADS: [[(usize, usize); 3]; 6] =
+        [[(1, 1), (0, 0), (0, 0)], [(8, 8), (8, 8), (8, 8)], [(32, 32), (16, 16), (16, 16)], [(0, 1), (1, 0), (0, 0)], [(1, 0), (0, 0), (0, 1)], [(2, 2), (1, 1), (1, 1)]];
+    let k = rng.below(12) as usize;
+    let pads = if k < 6 { PADS[k] } else { [(0, 0); 3] };
     if st == 8 {
-        Yuv::<u8>::new(frame_from_pixels::<u8>(&px, w, h, c.ssx, c.ssy, [(0, 0); 3]), c.yuv_config()).map(Img::Yuv8).map_err(|e| err_name_yuv(e).to_string())
+        Yuv::<u8>::new(frame_from_pixels::<u8>(&px, w, h, c.ssx, c.ssy, pads), c.yuv_config()).map(Img::Yuv8).map_err(|e| err_name_yuv(e).to_string())
     } else {
-        Yuv::<u16>::new(frame_from_pixels::<u16>(&px, w, h, c.ssx, c.ssy, [(0, 0); 3]), c.yuv_config()).map(Img::Yuv16).map_err(|e| err_name_yuv(e).to_string())
+        Yuv::<u16>::new(frame_from_pixels::<u16>(&px, w, h, c.ssx, c.ssy, pads), c.yuv_config()).map(Img::Yuv16).map_err(|e| err_name_yuv(e).to_string())
     }
 }
 
